@@ -8,7 +8,7 @@ mkdir -p .build replays evidence
 TARGETS=$(python3 - <<'PY'
 import glob, json
 t = ["ApiFu"]
-for f in sorted(glob.glob("checks/C*.json")):
+for f in sorted(glob.glob("checks/C[0-9][0-9].json")):
     c = json.load(open(f))
     if c.get("claimed", True):
         for x in c.get("lean_targets", []):
@@ -18,7 +18,7 @@ PY
 )
 (cd lean && lake build $TARGETS)
 cp /repo/go.sum harness/go.sum
-for f in checks/C*.json; do
+for f in checks/C[0-9][0-9].json; do
   h=$(python3 -c "import json,sys; c=json.load(open('$f')); print(c.get('harness','') if c.get('claimed',True) else '')")
   if [ -n "$h" ]; then (cd harness && go build -tags verif -o /dev/null ./cmd/$h); fi
 done
